@@ -18,7 +18,7 @@ def T(module, *names, partial=False):
           "Kanzi.Properties.C12_ans1": "Kanzi.C12", "Kanzi.Properties.C12_cm": "Kanzi.C12", "Kanzi.Properties.C13_srt": "Kanzi.C13", "Kanzi.Properties.C01_blockgen": "Kanzi.C01gen",
           "Kanzi.Properties.C19_paths": "Kanzi.C19", "Kanzi.Properties.C13_alias": "Kanzi.C13", "Kanzi.Properties.C13_lzp": "Kanzi.C13", "Kanzi.Properties.C13_fsd": "Kanzi.C13", "Kanzi.Properties.C12_binary": "Kanzi.C12", "Kanzi.Properties.C12_fpaq": "Kanzi.C12",
           "Kanzi.Properties.C12_cm_codec": "Kanzi.C12", "Kanzi.Properties.C13_lz": "Kanzi.C13", "Kanzi.Properties.C13_lz_consts": "Kanzi.ConstsTie",
-          "Kanzi.Properties.C12_tpaq": "Kanzi.C12", "Kanzi.Properties.C12_tpaq_codec": "Kanzi.C12", "Kanzi.Properties.C12_huffman": "Kanzi.C12", "Kanzi.Properties.C13_utf": "Kanzi.C13", "Kanzi.Properties.C13_bwts": "Kanzi.C13", "Kanzi.Properties.C01_blockgen2": "Kanzi.C01gen", "Kanzi.Properties.C13_exe": "Kanzi.C13", "Kanzi.Properties.C13_bwt": "Kanzi.C13", "Kanzi.Properties.C13_rolz": "Kanzi.C13", "Kanzi.Properties.C13_rolz_consts": "Kanzi.ConstsTie", "Kanzi.Properties.C13_text": "Kanzi.C13"}[module]
+          "Kanzi.Properties.C12_tpaq": "Kanzi.C12", "Kanzi.Properties.C12_tpaq_codec": "Kanzi.C12", "Kanzi.Properties.C12_huffman": "Kanzi.C12", "Kanzi.Properties.C13_utf": "Kanzi.C13", "Kanzi.Properties.C13_bwts": "Kanzi.C13", "Kanzi.Properties.C01_blockgen2": "Kanzi.C01gen", "Kanzi.Properties.C13_exe": "Kanzi.C13", "Kanzi.Properties.C13_bwt": "Kanzi.C13", "Kanzi.Properties.C13_rolz": "Kanzi.C13", "Kanzi.Properties.C13_rolz_consts": "Kanzi.ConstsTie", "Kanzi.Properties.C13_text": "Kanzi.C13", "Kanzi.Properties.C01_blockgen3": "Kanzi.C01gen", "Kanzi.Properties.C01_text_inst": "Kanzi.C01gen"}[module]
     return [{"module": module, "name": n if n.startswith("Kanzi.") else ns + "." + n, "partial": partial or n.endswith("_partial")} for n in names]
 
 
@@ -77,6 +77,7 @@ EXE = {"name": "exe", "kmodel": "exe", "timeout": 7200}
 BWT = {"name": "bwt", "kmodel": "bwt", "timeout": 7200}
 ROLZ = {"name": "rolz", "kmodel": "rolz", "timeout": 7200}
 TEXT = {"name": "text", "kmodel": "text", "timeout": 7200}
+IMAGEGEN3 = {"name": "imagegen3", "kmodel": "imagegen3", "timeout": 7200}
 LZP = {"name": "lzp", "kmodel": "lzp", "timeout": 3600}
 FSD = {"name": "fsd", "kmodel": "fsd", "timeout": 3600}
 SRT = {"name": "srt", "kmodel": "srt", "timeout": 3600}
@@ -112,11 +113,18 @@ PROPS["C01"] = {
                     "C01_chain_components", "C01_chain_no_fault", "C01_codec_of_header2", "C01_level0", "C01_level1", "C01_level2", "C01_levels_modelled", "C01_levels_out_of_reach", "C01_chain_expansion_limit",
                     "C01_stream_image_chain_none")
                 + T("Kanzi.Properties.C01_blockgen2", "C01_codec_chain_fpaq_partial", "C01_codec_chain_cm_partial", "C01_stream_image_chain_partial", partial=True)
+                + T("Kanzi.Properties.C01_blockgen3", "C01_textLaw_spelled_out", "C01_codec_chain3", "C01_codec_chain3_no_text", "C01_codec_chain3_none", "C01_chain3_extends", "C01_codec_chain3_ent",
+                    "C01_tpaqFits_spelled_out", "C01_chain3_components", "C01_chain3_components_concrete", "C01_grow3_spelled_out", "C01_chain3_adapters", "C01_chain3_no_fault",
+                    "C01_chain3_encoder_jobs_independent", "C01_codec_chain3_jobs", "C01_chain3_size_limits", "C01_codec_of_header3", "C01_level3", "C01_level4", "C01_level5",
+                    "C01_levels_all_modelled", "C01_newSeq3_extends", "C01_stream_image_chain3_none")
+                + T("Kanzi.Properties.C01_blockgen3", "C01_codec_chain3_fpaq_partial", "C01_codec_chain3_cm_partial", "C01_codec_chain3_tpaq_partial", "C01_level6_partial", "C01_level7_partial",
+                    "C01_level8_partial", "C01_level9_partial", "C01_stream_image_chain3_partial", partial=True)
+                + T("Kanzi.Properties.C01_text_inst", "textLaw_text", "C01_level3_closed", "C01_level4_closed", "C01_level5_closed")
                 + T(MCT, "io_consts", "kanzi_consts", "consts_nonvacuous") + T(MBO, "writeHeader_layout", "readHeader_layout", "frame_layout", "block_prologue_layout"),
-    "streams": [SW, SR, JOBS, IMAGE, IMAGEGEN, IMAGEGEN2, RT, RTBIG],
-    "level_text": "PROOF of the stream layer under assumption H_codec, plus search. Proved for all data, all partitions into Write calls, all job counts on both sides, all size-hint values, all read sizes: Write/Close succeed, the blocks are chunks(B,data), the framed stream parses back to them, and the reader returns exactly data then end-of-stream (C01_roundtrip = C04_writer_blocks + C10_stream_layout + C05_reader_refines_spec); the transform sequence with any pattern of declined stages and both skip-flag layouts round-trips (C13_sequence*); NONE entropy proved (C12_none); for the NONE/NONE codec H_codec is PROVED incl. the copy-block branch and the three checksum widths (C01_codec_NONE) and the whole chain is closed at the byte level: the bytes the Writer model emits, for any partition/jobs/hint, parse back through header, framing and block decode to the data (C01_none_end_to_end), and that byte image is byte-identical to the real Writer's output (image stream). The per-block codec is now modelled GENERICALLY (Model.BlockGen: copy-block branch, the skipBlocks entropy test with the real magic-number and first-order-entropy code, mode byte, skip flags in the nibble or the extra byte, length field, checksum, entropy coder, inverse sequence): C01_block_roundtrip reduces H_codec to per-stage and per-entropy-codec laws, and it is discharged with NO remaining hypothesis for every chain of up to 8 transforms over NONE/ZRLT/MTFT/RANK with entropy NONE or ANS0 (C01_codec_small_none, C01_codec_small_ans0, C01_codec_of_header), up to the byte image of the whole stream (C01_gen_end_to_end, C01_gen_end_to_end_ans0 for block sizes <= 128 KiB; above that PARTIAL under the decidable hypothesis that the ANS0 payload fits the reader's frame bound); the imagegen stream compares that image byte for byte with the real Writer and the real Reader's verdict on damaged images. Second instantiation (Model.BlockGen2, data-type hint threaded through the chain as the real ctx does, the task's output-buffer length threaded per task): H_codec is a THEOREM for every chain of up to 8 stages over {NONE, ZRLT, MTFT, RANK, RLT, SRT, PACK, DNA, LZ, LZX, LZP, MM} with entropy {NONE, ANS0, ANS1, RANGE, HUFFMAN} (C01_codec_chain), hypothesis-free for chains without SRT and MM (C01_codec_chain_nonexpanding) and otherwise under the decidable side condition ChainFits = 'the stages cannot expand the block beyond the decoder's bound' - which is exactly the known finding F43 (C01_chain_expansion_limit proves the failing configuration); the CLI levels 0, 1, 2 are hypothesis-free corollaries tied to the regenerated level table (C01_level0/1/2, C01_levels_modelled); FPAQ / CM conditional on fits2; the imagegen2 stream reproduces the real Writer's bytes for whole streams over all these configurations (it exposed F44: RLT made the stream depend on the job count). ASSUMED (H_codec) for chains containing BWT, BWTS-forward, ROLZ/ROLZX, TEXT, UTF (proved, not yet instantiated), EXE: decode(encode(block)) = block - searched on the real code (rt/rtbig: every transform and entropy, chains up to 8, all data shapes, block sizes, jobs, hints, headerless).",
+    "streams": [SW, SR, JOBS, IMAGE, IMAGEGEN, IMAGEGEN2, IMAGEGEN3, RT, RTBIG],
+    "level_text": "PROOF of the stream layer under assumption H_codec, plus search. Proved for all data, all partitions into Write calls, all job counts on both sides, all size-hint values, all read sizes: Write/Close succeed, the blocks are chunks(B,data), the framed stream parses back to them, and the reader returns exactly data then end-of-stream (C01_roundtrip = C04_writer_blocks + C10_stream_layout + C05_reader_refines_spec); the transform sequence with any pattern of declined stages and both skip-flag layouts round-trips (C13_sequence*); NONE entropy proved (C12_none); for the NONE/NONE codec H_codec is PROVED incl. the copy-block branch and the three checksum widths (C01_codec_NONE) and the whole chain is closed at the byte level: the bytes the Writer model emits, for any partition/jobs/hint, parse back through header, framing and block decode to the data (C01_none_end_to_end), and that byte image is byte-identical to the real Writer's output (image stream). The per-block codec is now modelled GENERICALLY (Model.BlockGen: copy-block branch, the skipBlocks entropy test with the real magic-number and first-order-entropy code, mode byte, skip flags in the nibble or the extra byte, length field, checksum, entropy coder, inverse sequence): C01_block_roundtrip reduces H_codec to per-stage and per-entropy-codec laws, and it is discharged with NO remaining hypothesis for every chain of up to 8 transforms over NONE/ZRLT/MTFT/RANK with entropy NONE or ANS0 (C01_codec_small_none, C01_codec_small_ans0, C01_codec_of_header), up to the byte image of the whole stream (C01_gen_end_to_end, C01_gen_end_to_end_ans0 for block sizes <= 128 KiB; above that PARTIAL under the decidable hypothesis that the ANS0 payload fits the reader's frame bound); the imagegen stream compares that image byte for byte with the real Writer and the real Reader's verdict on damaged images. Second instantiation (Model.BlockGen2, data-type hint threaded through the chain as the real ctx does, the task's output-buffer length threaded per task): H_codec is a THEOREM for every chain of up to 8 stages over {NONE, ZRLT, MTFT, RANK, RLT, SRT, PACK, DNA, LZ, LZX, LZP, MM} with entropy {NONE, ANS0, ANS1, RANGE, HUFFMAN} (C01_codec_chain), hypothesis-free for chains without SRT and MM (C01_codec_chain_nonexpanding) and otherwise under the decidable side condition ChainFits = 'the stages cannot expand the block beyond the decoder's bound' - which is exactly the known finding F43 (C01_chain_expansion_limit proves the failing configuration); the CLI levels 0, 1, 2 are hypothesis-free corollaries tied to the regenerated level table (C01_level0/1/2, C01_levels_modelled); FPAQ / CM conditional on fits2; the imagegen2 stream reproduces the real Writer's bytes for whole streams over all these configurations (it exposed F44: RLT made the stream depend on the job count). Third instantiation (Model.BlockGen3): ALL NINETEEN transforms - UTF, EXE, ROLZ, ROLZX, BWT and BWTS (forward = the specification of the suffix sort, tied to DivSufSort by the bwt / bwts / imagegen3 streams, not proved) and TEXT (first as an abstract implementation under the law TextLaw, then instantiated with the proved TEXT model: textLaw_text) - so C01_codec_chain3 makes H_codec a THEOREM for every chain of up to 8 transforms with entropy NONE / ANS0 / ANS1 / RANGE / HUFFMAN (with TEXT in the chain the only residual condition is the Reader's frame bound of 2^34 payload bits, proved for entropy NONE), FPAQ / CM / TPAQ / TPAQX conditional on the decoder's chunk acceptance test fits2; every CLI level is a named corollary tied to the regenerated level table: levels 0, 1, 2, 4 hypothesis-free (C01_level4_closed), 3 and 5 up to the frame bound (C01_level3_closed, C01_level5_closed), 6-9 PARTIAL under fits2 (C01_level6..9_partial); imagegen3 reproduces the real Writer's bytes for whole streams over the new transforms (small blocks for the spec suffix sort). NOTHING is left assumed at the level of H_codec except: real DivSufSort = spec (stream-tied) and fits2 for the four adaptive binary codecs: decode(encode(block)) = block - searched on the real code (rt/rtbig: every transform and entropy, chains up to 8, all data shapes, block sizes, jobs, hints, headerless).",
     "level_note": BASE_NOTE + "H_codec for 17 transforms and 8 entropy codecs is an assumption covered only by the rt/rtbig search; buffer-size sufficiency of the decoder for chained expanding transforms is searched, not proved.",
-    "assumptions": ["H_codec: per-block decode(encode(b)) = b and consumes exactly the encoder's bits, for codecs other than NONE/ZRLT/SBRT/Null"],
+    "assumptions": ["the real suffix sort (DivSufSort) computes the suffix array of the block (specification of BWT/BWTS forward; tied by the bwt, bwts and imagegen3 streams)", "fits2: no chunk of an adaptive binary codec (FPAQ, CM, TPAQ, TPAQX) doubles in size - the decoder's own acceptance test; maximum reached by adversarial search: 1.35x"],
 }
 
 PROPS["C02"] = {
